@@ -225,8 +225,9 @@ def run(prop, tier, seed, replay=None):
     if prop in ("C01", "C02", "C08"):
         # systematically: an overwrite, a create and a delete with the fault at every one of their
         # file-system mutations, on a work-tree repository through both front ends
-        for cfg in (HTTP_CONFIGS[0], HTTP_CONFIGS[1]):
-            steps = [["mk", "cal1", "calendar"], ["put", "cal1", "a.ics", "@model:1"]]
+        for cfg in (HTTP_CONFIGS[0], HTTP_CONFIGS[1], HTTP_CONFIGS[7]):
+            # (the third one: bare repositories, which exist before the server starts)
+            steps = ([["mk", "cal1", "calendar"]] if cfg[2] == "tree" else []) + [["put", "cal1", "a.ics", "@model:1"]]
             for k in range(1, 19):
                 steps.append(["put", "cal1", "a.ics", "@model:%d" % (2 if k % 2 else 1), {"fault": k}])
                 steps.append(["put", "cal1", "n%d.ics" % k, "@model:3", {"fault": k}])
